@@ -30,6 +30,7 @@ type walkCfg struct {
 	Inject  int   `json:"inject"`
 	Restart int   `json:"restart"`
 	Renom   int   `json:"renom"`
+	Data    int   `json:"data"`
 	Steps   int   `json:"steps"`
 	Advance []int `json:"advance"`
 	Horizon int   `json:"horizon"`
@@ -53,6 +54,7 @@ type sessCfg struct {
 	Unreach   [][2]string            `json:"unreach"`
 	MaxReq    int                    `json:"maxReq"`
 	Renom     bool                   `json:"renom"`
+	NomBase   uint32                 `json:"nomBase"`
 	Lite      map[string]bool        `json:"lite"`
 	CheckPrio map[string]bool        `json:"checkPrio"`
 	Walk      walkCfg                `json:"walk"`
@@ -133,6 +135,48 @@ type mmsg struct {
 	Nom   int    `json:"nom"`
 }
 
+// dgram is an application-data datagram on the simulated wire (model record + bytes).
+type dgram struct {
+	g gram
+	m map[string]any
+}
+
+type dread struct {
+	Pid    int  `json:"pid"`
+	Len    int  `json:"len"`
+	Intact bool `json:"intact"`
+}
+
+// payload builds a recognisable non-STUN payload: 0xD0, pid (4 bytes), then a pattern.
+func payload(pid, n int) []byte {
+	if n < 5 {
+		n = 5
+	}
+	b := make([]byte, n)
+	b[0] = 0xD0
+	b[1], b[2], b[3], b[4] = byte(pid>>24), byte(pid>>16), byte(pid>>8), byte(pid)
+	for i := 5; i < n; i++ {
+		b[i] = byte(pid*31 + i*7)
+	}
+
+	return b
+}
+
+func parsePayload(b []byte) dread {
+	if len(b) < 5 || b[0] != 0xD0 {
+		return dread{Pid: -1, Len: len(b)}
+	}
+	pid := int(b[1])<<24 | int(b[2])<<16 | int(b[3])<<8 | int(b[4])
+	ok := true
+	for i, x := range payload(pid, len(b)) {
+		if b[i] != x {
+			ok = false
+		}
+	}
+
+	return dread{Pid: pid, Len: len(b), Intact: ok}
+}
+
 type fl struct {
 	g gram
 	m mmsg
@@ -161,19 +205,23 @@ func rank(p uint32) int {
 }
 
 type side struct {
-	ag    *ice.Agent
-	gen   int
-	rgen  int
-	ufrag map[int]string
-	pwd   map[int]string
-	tb    uint64
-	ticks int
-	tids  map[string]int // raw tid -> n (requests issued by this agent)
-	raw   map[int][12]byte
-	cbMu  sync.Mutex
-	cbCon []string
-	cbSel [][2]string
-	cbCnd []string
+	ag                     *ice.Agent
+	gen                    int
+	rgen                   int
+	ufrag                  map[int]string
+	pwd                    map[int]string
+	tb                     uint64
+	ticks                  int
+	tids                   map[string]int // raw tid -> n (requests issued by this agent)
+	raw                    map[int][12]byte
+	nomCtr                 uint32
+	conn                   *ice.Conn
+	reads                  []dread // payloads the application reader got since the last snapshot
+	wrPk, wrBy, rdPk, rdBy int
+	cbMu                   sync.Mutex
+	cbCon                  []string
+	cbSel                  [][2]string
+	cbCnd                  []string
 }
 
 func (s *side) drainCB() (con []string, sel [][2]string, cnd []string) {
@@ -273,7 +321,6 @@ func runSession(t *testing.T, cfg *sessCfg, job *sessJob, rng *mrand.Rand, sched
 		for _, l := range cfg.Loc[n] {
 			las = append(las, symAddr[l])
 		}
-		var nomCounter uint32
 		u, p := cred(n, 1)
 		acc := cfg.Tr.Acc
 		if job.ZeroWait {
@@ -291,7 +338,7 @@ func runSession(t *testing.T, cfg *sessCfg, job *sessJob, rng *mrand.Rand, sched
 			ice.WithPrflxAcceptanceMinWait(ms(acc["prflx"])), ice.WithRelayAcceptanceMinWait(ms(acc["relay"])),
 		}
 		if cfg.Renom {
-			opts = append(opts, ice.WithRenomination(func() uint32 { nomCounter++; return nomCounter }))
+			opts = append(opts, ice.WithRenomination(func() uint32 { S[n].nomCtr++; return S[n].nomCtr }))
 		}
 		if cfg.Lite[n] {
 			opts = append(opts, ice.WithICELite(true))
@@ -311,7 +358,7 @@ func runSession(t *testing.T, cfg *sessCfg, job *sessJob, rng *mrand.Rand, sched
 			tb = 150
 		}
 		ag.VerifSetTieBreaker(tb)
-		sd := &side{ag: ag, gen: 1, rgen: 1, ufrag: map[int]string{1: u}, pwd: map[int]string{1: p}, tb: tb, tids: map[string]int{}, raw: map[int][12]byte{}}
+		sd := &side{ag: ag, nomCtr: cfg.NomBase, gen: 1, rgen: 1, ufrag: map[int]string{1: u}, pwd: map[int]string{1: p}, tb: tb, tids: map[string]int{}, raw: map[int][12]byte{}}
 		_ = ag.OnCandidate(func(c ice.Candidate) {
 			sd.cbMu.Lock()
 			if c == nil {
@@ -392,13 +439,26 @@ func runSession(t *testing.T, cfg *sessCfg, job *sessJob, rng *mrand.Rand, sched
 		u, p := cred(other(n), 1)
 		var err error
 		if cfg.Roles[n] == "controlling" {
-			_, err = S[n].ag.StartDial(u, p)
+			S[n].conn, err = S[n].ag.StartDial(u, p)
 		} else {
-			_, err = S[n].ag.StartAccept(u, p)
+			S[n].conn, err = S[n].ag.StartAccept(u, p)
 		}
 		if err != nil {
 			t.Fatal(err)
 		}
+		sd := S[n]
+		go func() { // the application's reader
+			buf := make([]byte, 9000)
+			for {
+				k, rerr := sd.conn.Read(buf)
+				if rerr != nil {
+					return
+				}
+				sd.cbMu.Lock()
+				sd.reads = append(sd.reads, parsePayload(buf[:k]))
+				sd.cbMu.Unlock()
+			}
+		}()
 	}
 	start("A")
 	synctest.Wait()
@@ -417,6 +477,7 @@ func runSession(t *testing.T, cfg *sessCfg, job *sessJob, rng *mrand.Rand, sched
 		return 0
 	}
 	var flight []fl
+	nomTid := map[int]int{} // request ordinal -> nomination value it carried
 	decode := func(g gram) (mmsg, bool) {
 		m := &stun.Message{Raw: g.data}
 		if m.Decode() != nil {
@@ -489,17 +550,22 @@ func runSession(t *testing.T, cfg *sessCfg, job *sessJob, rng *mrand.Rand, sched
 		var na ice.NominationAttribute
 		if na.GetFrom(m) == nil {
 			mm.Nom = int(na.Value)
+			if mm.Kind == "req" {
+				nomTid[mm.Tid] = mm.Nom
+			}
 		}
 
 		return mm, true
 	}
-	var data []map[string]any // non-STUN datagrams seen on the wire (C07)
+	var dflight []dgram // application-data datagrams in flight (C07)
 	collect := func() {
 		for _, g := range w.take() {
 			if mm, ok := decode(g); ok {
 				flight = append(flight, fl{g, mm})
 			} else {
-				data = append(data, map[string]any{"src": sym(g.from), "dst": sym(g.to), "len": len(g.data)})
+				pr := parsePayload(g.data)
+				dflight = append(dflight, dgram{g, map[string]any{"from": ownerOfLocal(local(g.from)), "src": sym(g.from), "dst": sym(g.to),
+					"pid": pr.Pid, "len": pr.Len, "intact": pr.Intact}})
 			}
 		}
 	}
@@ -531,10 +597,32 @@ func runSession(t *testing.T, cfg *sessCfg, job *sessJob, rng *mrand.Rand, sched
 				pend = append(pend, map[string]any{"tid": S[n].tids[x.Tid], "dst": sym(x.Dst), "uc": x.UC, "nom": x.Nom})
 			}
 			con, sel, cnd := S[n].drainCB()
+			S[n].cbMu.Lock()
+			rds := S[n].reads
+			S[n].reads = nil
+			S[n].cbMu.Unlock()
+			if rds == nil {
+				rds = []dread{}
+			}
+			for _, r := range rds {
+				S[n].rdPk++
+				S[n].rdBy += r.Len
+			}
+			selCnt := []uint64{0, 0, 0, 0}
+			for _, p := range s.Pairs {
+				if p.ID == s.Sel && s.Sel != 0 {
+					selCnt = []uint64{uint64(p.PktSent), p.BytSent, uint64(p.PktRecv), p.BytRecv}
+				}
+			}
+			var bs, br uint64
+			if S[n].conn != nil {
+				bs, br = S[n].conn.BytesSent(), S[n].conn.BytesReceived()
+			}
 			res[n] = map[string]any{
 				"role": s.Role, "conn": s.Conn, "locals": locs, "remotes": rems, "pairs": prs, "pend": pend, "sel": s.Sel,
 				"nomPair": s.NomPair, "gen": S[n].gen, "rgen": S[n].rgen, "rx": rxs, "lastNom": s.LastNom, "gath": s.Gath,
 				"cbConn": con, "cbSel": sel, "cbCand": cnd,
+				"rd": rds, "bsent": bs, "brecv": br, "selCnt": selCnt, "tally": []int{S[n].wrPk, S[n].wrBy, S[n].rdPk, S[n].rdBy},
 			}
 		}
 		nt := []mmsg{}
@@ -542,6 +630,11 @@ func runSession(t *testing.T, cfg *sessCfg, job *sessJob, rng *mrand.Rand, sched
 			nt = append(nt, f.m)
 		}
 		res["net"] = nt
+		dn := []map[string]any{}
+		for _, d := range dflight {
+			dn = append(dn, d.m)
+		}
+		res["dnet"] = dn
 		res["now"] = time.Since(t0).Milliseconds()
 
 		return res
@@ -646,7 +739,7 @@ func runSession(t *testing.T, cfg *sessCfg, job *sessJob, rng *mrand.Rand, sched
 
 	collect()
 	emit(map[string]any{"ev": "Reset", "cfg": job.Cfg, "post": snap()})
-	loss, dup, inj, rst, renoms := 0, 0, 0, 0, 0
+	loss, dup, inj, rst, renoms, badRenoms, dataOps, pidCtr := 0, 0, 0, 0, 0, 0, 0, 0
 	type act struct {
 		ev, ag string
 		i      int
@@ -702,7 +795,78 @@ func runSession(t *testing.T, cfg *sessCfg, job *sessJob, rng *mrand.Rand, sched
 			rec["ag"] = c.ag
 			rec["k"] = c.i + 1
 			renoms++
+			rec["err"] = ""
 			if err := S[c.ag].ag.RenominateCandidate(lc, rc); err != nil {
+				rec["err"] = err.Error()
+			}
+			rec["v"] = S[c.ag].nomCtr
+			rec["l"], rec["r"] = sym(p.L), sym(p.R)
+		case "Write": // application data through Conn.Write; c.i = payload length, c.want["stun"] = STUN-framed payload
+			pidCtr++
+			rec["ag"], rec["pid"], rec["len"], rec["stun"], rec["err"], rec["n"] = c.ag, pidCtr, c.i, false, "", 0
+			pl := payload(pidCtr, c.i)
+			rec["len"] = len(pl)
+			if c.want != nil && c.want["stun"] == true {
+				msg, _ := stun.Build(stun.BindingRequest, stun.TransactionID, stun.Fingerprint)
+				pl = msg.Raw
+				rec["stun"], rec["len"] = true, len(pl)
+			}
+			k, werr := S[c.ag].conn.Write(pl)
+			rec["n"] = k
+			if werr != nil {
+				rec["err"] = werr.Error()
+			} else {
+				S[c.ag].wrPk++
+				S[c.ag].wrBy += k
+			}
+			dataOps++
+		case "DeliverData":
+			d := dflight[c.i]
+			dflight = append(dflight[:c.i:c.i], dflight[c.i+1:]...)
+			rec["d"] = d.m
+			dst, _ := d.m["dst"].(string)
+			src, _ := d.m["src"].(string)
+			if !agentAddr[dst] || unreach[[2]string{src, dst}] {
+				rec["ev"] = "VanishData"
+			} else {
+				w.deliver(d.g)
+			}
+		case "DropData":
+			d := dflight[c.i]
+			dflight = append(dflight[:c.i:c.i], dflight[c.i+1:]...)
+			rec["d"] = d.m
+		case "InjectData": // a datagram with application-looking payload from the attacker's or the peer's address
+			pidCtr++
+			peer := other(c.ag)
+			srcs := []string{"x9", cfg.Loc[peer][0]}
+			if p, ok := cfg.Nat[srcs[1]]; ok {
+				srcs[1] = p
+			}
+			src := srcs[rng.Intn(2)]
+			if c.want != nil {
+				src, _ = c.want["src"].(string)
+			}
+			dst := cfg.Loc[c.ag][0]
+			if p, ok := cfg.Nat[dst]; ok {
+				dst = p
+			}
+			ln := []int{5, 20, 1200}[rng.Intn(3)]
+			pl := payload(pidCtr, ln)
+			d := dgram{gram{pl, symAddr[src], symAddr[dst]}, map[string]any{"from": "X", "src": src, "dst": dst, "pid": pidCtr, "len": ln, "intact": true}}
+			dflight = append(dflight, d)
+			rec["d"] = d.m
+			dataOps++
+		case "RenominateBad": // a call the API must refuse: controlled agent, or renomination not enabled
+			rec["ag"] = c.ag
+			rec["err"] = ""
+			badRenoms++
+			locs, _ := S[c.ag].ag.GetLocalCandidates()
+			rems, _ := S[c.ag].ag.GetRemoteCandidates()
+			if len(locs) == 0 || len(rems) == 0 {
+				rec["ev"] = "Skipped"
+				rec["want"] = map[string]any{"ev": "RenominateBad"}
+				stats.Skipped++
+			} else if err := S[c.ag].ag.RenominateCandidate(locs[0], rems[0]); err != nil {
 				rec["err"] = err.Error()
 			}
 		case "Advance":
@@ -783,11 +947,23 @@ func runSession(t *testing.T, cfg *sessCfg, job *sessJob, rng *mrand.Rand, sched
 						acts = append(acts, act{ev: "Renominate", ag: n, i: i})
 					}
 				}
+				if dataOps < cfg.Walk.Data {
+					for _, ln := range []int{5, 19, 20, 1200, 8191, 8192} {
+						acts = append(acts, act{ev: "Write", ag: n, i: ln})
+					}
+					acts = append(acts, act{ev: "Write", ag: n, i: 20, want: map[string]any{"stun": true}}, act{ev: "InjectData", ag: n}, act{ev: "InjectData", ag: n})
+				}
+				if cfg.Walk.Renom > 0 && (sn.Role != "controlling" || !cfg.Renom) && badRenoms < 2 {
+					acts = append(acts, act{ev: "RenominateBad", ag: n})
+				}
 			}
 			if !job.NoTime && time.Since(t0) < ms(cfg.Walk.Horizon) {
 				for _, d := range cfg.Walk.Advance {
 					acts = append(acts, act{ev: "Advance", i: d})
 				}
+			}
+			for i := range dflight {
+				acts = append(acts, act{ev: "DeliverData", i: i}, act{ev: "DeliverData", i: i}, act{ev: "DeliverData", i: i}, act{ev: "DropData", i: i})
 			}
 			for i := range flight {
 				acts = append(acts, act{ev: "Deliver", i: i}, act{ev: "Deliver", i: i}, act{ev: "Deliver", i: i})
@@ -813,6 +989,57 @@ func runSession(t *testing.T, cfg *sessCfg, job *sessJob, rng *mrand.Rand, sched
 
 				continue
 			}
+			if c.ev == "DeliverWhere" || c.ev == "DropWhere" { // macro: deliver/drop every in-flight datagram matching a filter
+				wh, _ := a["where"].(map[string]any)
+				match := func(m mmsg) bool {
+					for k, v := range wh {
+						switch k {
+						case "addr":
+							if m.Src != v && m.Dst != v {
+								return false
+							}
+						case "kind":
+							if m.Kind != v {
+								return false
+							}
+						case "from":
+							if m.From != v {
+								return false
+							}
+						case "nom":
+							if float64(m.Nom) != v {
+								return false
+							}
+						case "respToNom": // the success response to the request that carried this nomination value
+							if m.Kind != "succ" || float64(nomTid[m.Tid]) != v {
+								return false
+							}
+						}
+					}
+
+					return true
+				}
+				for guard := 0; guard < 200; guard++ {
+					idx := -1
+					for i, f := range flight {
+						if match(f.m) {
+							idx = i
+
+							break
+						}
+					}
+					if idx < 0 {
+						break
+					}
+					if c.ev == "DropWhere" {
+						do(act{ev: "Drop", i: idx})
+					} else {
+						do(act{ev: "Deliver", i: idx})
+					}
+				}
+
+				continue
+			}
 			if c.ev == "Rounds" { // macro: n rounds of tick A, tick B, deliver all
 				n, _ := a["n"].(float64)
 				for r := 0; r < int(n); r++ {
@@ -833,6 +1060,40 @@ func runSession(t *testing.T, cfg *sessCfg, job *sessJob, rng *mrand.Rand, sched
 			}
 			if v, ok := a["d"].(float64); ok {
 				c.i = int(v)
+			}
+			if v, ok := a["len"].(float64); ok && c.ev == "Write" {
+				c.i = int(v)
+				if a["stun"] == true {
+					c.want = map[string]any{"stun": true}
+				}
+			}
+			if c.ev == "InjectData" {
+				if dm, ok := a["d"].(map[string]any); ok {
+					c.want = dm
+					c.ag = "B"
+					if d, _ := dm["dst"].(string); d != "" && ownerOfLocal(local(symAddr[d])) == "A" {
+						c.ag = "A"
+					}
+				}
+			}
+			if c.ev == "DeliverData" || c.ev == "DropData" || c.ev == "VanishData" {
+				c.i = -1
+				if dm, ok := a["d"].(map[string]any); ok {
+					for i, d := range dflight {
+						if float64(d.m["pid"].(int)) == dm["pid"] && d.m["src"] == dm["src"] && d.m["dst"] == dm["dst"] { //nolint:forcetypeassert
+							c.i = i
+						}
+					}
+				}
+				if c.i < 0 {
+					stats.Skipped++
+					emit(map[string]any{"ev": "Skipped", "want": a, "post": snap()})
+
+					continue
+				}
+				if c.ev == "VanishData" {
+					c.ev = "DeliverData"
+				}
 			}
 			skip := false
 			if m, ok := a["m"].(map[string]any); ok && c.ev != "Inject" {
@@ -914,6 +1175,9 @@ func runSession(t *testing.T, cfg *sessCfg, job *sessJob, rng *mrand.Rand, sched
 			do(act{ev: "Tick", ag: "B"})
 			for len(flight) > 0 {
 				do(act{ev: "Deliver", i: 0})
+			}
+			for len(dflight) > 0 {
+				do(act{ev: "DeliverData", i: 0})
 			}
 		}
 		post := snap()
